@@ -87,6 +87,11 @@ CHECKS = {
    "Trusted: the harness' structure parser/encoder for the three formats and the generator's bookkeeping.",
    "property-based testing (rapid): round trip + independent format parser/encoder + ground-truth oracle",
    "DESIGN.md 3/C15"),
+ "C13": ("exploration",
+   "Generated-input search: BAM payloads from the harness' encoder are cut into BGZF blocks at record ends -1/0/+1 and mid-record (or written by bam.Writer), read sequentially noting LastChunk per record, and generated lists of chunks {Begin_i,End_j} (any order, repeated, overlapping) are replayed through SetChunk+Read and bam.Iterator at rd 1..4: exactly records i..j per chunk, in list order. ChunkReader: ordered non-overlapping chunk lists between arbitrary logical positions of C02 files, with every block-boundary position in each of its virtual-offset spellings, zero-length chunks and several buffer sizes: exactly the flat bytes, then io.EOF.",
+   "Chunk lists for ChunkReader are ordered and non-overlapping; read-ahead schedules are sampled; every replay runs under a watchdog.",
+   "property-based testing (rapid): reference model (record list / flat byte array) over generated files and chunk lists",
+   "DESIGN.md 3/C13"),
 }
 
 NOT_YET = {}
